@@ -12,6 +12,7 @@ pub fn main(args: &[String]) -> i32 {
     while i < args.len() {
         match args[i].as_str() {
             "--taps" => taps = true,
+            "--interactive" => {}
             "--explore" => do_explore = true,
             "--dev" => {
                 dev = args[i + 1].parse().unwrap();
@@ -30,6 +31,11 @@ pub fn main(args: &[String]) -> i32 {
         i += 1;
     }
     let mut setup = Setup::script(&script);
+    setup.auto_continue = script.contains("stopself");
+    if args.iter().any(|a| a == "--interactive") {
+        setup.argv = vec!["yash".into(), "-i".into(), "-s".into()];
+        setup.stdin = Some(script.clone().into_bytes());
+    }
     if let Some(s) = stdin {
         setup.argv = vec!["yash".into(), "-s".into()];
         setup.stdin = Some(s.into_bytes());
